@@ -123,12 +123,41 @@ pub fn tval_to_toml(v: &TVal) -> toml::Value {
     }
 }
 
+/// Author code often builds its metadata from a `HashMap`: insert the keys in this process's
+/// hash-iteration order (at every nesting level). libcnb's tables are sorted maps, so what
+/// reaches the disk must not depend on it.
+pub fn reinsert_in_hash_order(t: &toml::Table) -> toml::Table {
+    let staged: std::collections::HashMap<String, toml::Value> = t
+        .iter()
+        .map(|(k, v)| {
+            let v = match v {
+                toml::Value::Table(inner) => toml::Value::Table(reinsert_in_hash_order(inner)),
+                toml::Value::Array(a) => toml::Value::Array(
+                    a.iter()
+                        .map(|x| match x {
+                            toml::Value::Table(inner) => toml::Value::Table(reinsert_in_hash_order(inner)),
+                            other => other.clone(),
+                        })
+                        .collect(),
+                ),
+                other => other.clone(),
+            };
+            (k.clone(), v)
+        })
+        .collect();
+    let mut out = toml::Table::new();
+    for (k, v) in staged {
+        out.insert(k, v);
+    }
+    out
+}
+
 pub fn ttable_to_toml(t: &TTable) -> toml::Table {
     let mut out = toml::Table::new();
     for (k, v) in t {
         out.insert(k.clone(), tval_to_toml(v));
     }
-    out
+    reinsert_in_hash_order(&out)
 }
 
 const STRINGS: [&str; 12] = [
